@@ -112,7 +112,7 @@ fn parse_ratio_with_error(input: TokenStream) -> Result<(IBig, UBig, bool), Pars
             TokenTree::Literal(lit) => {
                 if num_val.is_none() {
                     num_val = Some(lit.to_string());
-                } else if den_val.is_none() {
+                } else if den_val.is_none() && den_marked {
                     den_val = Some(lit.to_string());
                 } else if base.is_none() && base_marked {
                     base = Some(lit.to_string());
@@ -123,9 +123,9 @@ fn parse_ratio_with_error(input: TokenStream) -> Result<(IBig, UBig, bool), Pars
             TokenTree::Ident(ident) => {
                 if num_val.is_none() {
                     num_val = Some(ident.to_string())
-                } else if den_val.is_none() {
+                } else if den_val.is_none() && den_marked {
                     den_val = Some(ident.to_string());
-                } else if base.is_none() && ident == "base" {
+                } else if den_val.is_some() && base.is_none() && ident == "base" {
                     base_marked = true
                 } else {
                     return Err(ParseError::InvalidDigit);
@@ -133,7 +133,8 @@ fn parse_ratio_with_error(input: TokenStream) -> Result<(IBig, UBig, bool), Pars
             }
             TokenTree::Punct(punct) => {
                 if punct.as_char() == '/' {
-                    if !den_marked && !base_marked {
+                    // the fraction bar must follow the numerator
+                    if num_val.is_some() && !den_marked && !base_marked {
                         den_marked = true;
                     } else {
                         return Err(ParseError::InvalidDigit);
@@ -155,7 +156,7 @@ fn parse_ratio_with_error(input: TokenStream) -> Result<(IBig, UBig, bool), Pars
                     } else if punct.as_char() != '+' {
                         return Err(ParseError::InvalidDigit);
                     }
-                } else if den_val.is_none() {
+                } else if den_val.is_none() && den_marked {
                     if den_signed {
                         return Err(ParseError::InvalidDigit);
                     }
@@ -175,6 +176,9 @@ fn parse_ratio_with_error(input: TokenStream) -> Result<(IBig, UBig, bool), Pars
 
     // generate expressions
     let num_val = num_val.ok_or(ParseError::NoDigits)?;
+    if den_marked && den_val.is_none() {
+        return Err(ParseError::NoDigits);
+    }
     let (num, den) = match base {
         Some(b) => {
             let b = b.parse::<u32>().or(Err(ParseError::UnsupportedRadix))?;
